@@ -187,6 +187,29 @@ harness(void) {
         VP_ASSERT(!(in[f] && !in[g]) || f_lu[g] < f_su[f] || f_su[g] > f_lu[f],
                   "level 0: no file left behind meets the user-key range of an input (closure)");
     }
+    {
+      /* brute-force fixpoint: grow the user-key range by every file it meets, on EITHER side,
+         until nothing changes (n rounds suffice); the result is exactly the files meeting the final range */
+      uint8_t lo = ka[0], hi = kb[0];
+      int round, chained = 0;
+      for (round = 0; round < n; round++)
+        for (f = base; f < base + n; f++)
+          if (vp_file_overlaps(f, has_a, lo, has_b, hi)) {
+            if (has_a && f_su[f] < lo) { lo = f_su[f]; if (round > 0) chained = 1; }
+            if (has_b && f_lu[f] > hi) { hi = f_lu[f]; if (round > 0) chained = 1; }
+          }
+      for (f = base; f < base + n; f++)
+        VP_ASSERT(in[f] == vp_file_overlaps(f, has_a, lo, has_b, hi), "level 0: inputs == transitive closure of the range under overlap (brute-force fixpoint)");
+#if VP_NLV >= 3
+      /* g=[a..c] f=[b..e] p=[d..z], start range hits only p: p pulls f, f pulls g */
+      if (has_a && has_b && in[base] && in[base + 1] && in[base + 2] &&
+          !vp_file_overlaps(base, 1, ka[0], 1, kb[0]) && !vp_file_overlaps(base + 1, 1, ka[0], 1, kb[0]) &&
+          f_lu[base] < f_su[base + 2] && chained) VP_WITNESS("chain-of-partial-overlaps-from-the-right-most-file");
+      if (has_a && has_b && in[base] && in[base + 1] && in[base + 2] &&
+          !vp_file_overlaps(base + 2, 1, ka[0], 1, kb[0]) && !vp_file_overlaps(base + 1, 1, ka[0], 1, kb[0]) &&
+          f_lu[base] < f_su[base + 2]) VP_WITNESS("chain-of-partial-overlaps-from-the-left-most-file");
+#endif
+    }
 #endif
     if (out.length == 0) VP_WITNESS("none");
 #if VP_NLV > 1
